@@ -156,7 +156,92 @@ def t_augexp(fn):
     return ch
 
 
-TRANSFORMS = {"control": lambda fn: True, "rename": t_rename, "swapcmp": t_swapcmp, "invertif": t_invertif, "splitand": t_splitand, "mergeif": t_mergeif,
+def _pure(e):
+    """no call / await / yield / walrus / subscript-with-call: evaluating e twice or at a slightly different place changes nothing (attribute and item
+    reads are taken as pure, as the project's own code treats them)"""
+    return not has_call(e)
+
+
+def _names(e, ctx=None):
+    return {x.id for x in ast.walk(e) if isinstance(x, ast.Name) and (ctx is None or isinstance(x.ctx, ctx))}
+
+
+def t_nametest(fn):
+    """if <pure test>: ...  ->  cond_rnK = <test>; if cond_rnK: ...   (a named boolean)"""
+    ch = 0
+    for b in _blocks(fn):
+        for s in list(b):
+            if isinstance(s, ast.If) and isinstance(s.test, (ast.Compare, ast.BoolOp)) and _pure(s.test):
+                idx = b.index(s)
+                nm = f"cond_rn{ch}"
+                b[idx:idx + 1] = [ast.Assign(targets=[ast.Name(id=nm, ctx=ast.Store())], value=s.test, lineno=s.lineno), s]
+                s.test = ast.Name(id=nm, ctx=ast.Load())
+                ch += 1
+    return ch > 0
+
+
+def _simple_assign(s):
+    return isinstance(s, ast.Assign) and len(s.targets) == 1 and isinstance(s.targets[0], ast.Name) and _pure(s.value)
+
+
+def t_swapassign(fn):
+    """two adjacent call-free assignments to different locals, neither reading the other's target: swapped"""
+    ch = False
+    for b in _blocks(fn):
+        i = 0
+        while i + 1 < len(b):
+            a, c = b[i], b[i + 1]
+            if _simple_assign(a) and _simple_assign(c) and a.targets[0].id != c.targets[0].id and a.targets[0].id not in _names(c.value) and c.targets[0].id not in _names(a.value):
+                b[i], b[i + 1] = c, a
+                ch = True
+                i += 2
+            else:
+                i += 1
+    return ch
+
+
+def t_demorgan(fn):
+    """if a and b: X else: Y  ->  if not a or not b: Y else: X"""
+    ch = False
+    for n in own_scope_nodes(fn):
+        if isinstance(n, ast.If) and n.orelse and isinstance(n.test, ast.BoolOp) and isinstance(n.test.op, ast.And):
+            n.test = ast.BoolOp(op=ast.Or(), values=[v.operand if isinstance(v, ast.UnaryOp) and isinstance(v.op, ast.Not) else ast.UnaryOp(op=ast.Not(), operand=v) for v in n.test.values])
+            n.body, n.orelse = n.orelse, n.body
+            ch = True
+    return ch
+
+
+def t_splittuple(fn):
+    """a, b = x, y  ->  a = x; b = y   (y does not read a; all pure)"""
+    ch = False
+    for b in _blocks(fn):
+        for s in list(b):
+            if isinstance(s, ast.Assign) and len(s.targets) == 1 and isinstance(s.targets[0], ast.Tuple) and isinstance(s.value, ast.Tuple) and \
+                    len(s.targets[0].elts) == len(s.value.elts) and all(isinstance(t, ast.Name) for t in s.targets[0].elts) and all(_pure(v) for v in s.value.elts):
+                tn = [t.id for t in s.targets[0].elts]
+                if any(tn[i] in _names(v) for j, v in enumerate(s.value.elts) for i in range(j)):
+                    continue
+                idx = b.index(s)
+                b[idx:idx + 1] = [ast.Assign(targets=[t], value=v, lineno=s.lineno) for t, v in zip(s.targets[0].elts, s.value.elts)]
+                ch = True
+    return ch
+
+
+def t_mergetuple(fn):
+    """a = x; b = y (adjacent, pure, y does not read a, x does not read b)  ->  a, b = x, y"""
+    ch = False
+    for b in _blocks(fn):
+        i = 0
+        while i + 1 < len(b):
+            a, c = b[i], b[i + 1]
+            if _simple_assign(a) and _simple_assign(c) and a.targets[0].id != c.targets[0].id and a.targets[0].id not in _names(c.value) and c.targets[0].id not in _names(a.value):
+                b[i:i + 2] = [ast.Assign(targets=[ast.Tuple(elts=[a.targets[0], c.targets[0]], ctx=ast.Store())], value=ast.Tuple(elts=[a.value, c.value], ctx=ast.Load()), lineno=a.lineno)]
+                ch = True
+            i += 1
+    return ch
+
+
+TRANSFORMS = {"control": lambda fn: True, "nametest": t_nametest, "swapassign": t_swapassign, "demorgan": t_demorgan, "splittuple": t_splittuple, "mergetuple": t_mergetuple, "rename": t_rename, "swapcmp": t_swapcmp, "invertif": t_invertif, "splitand": t_splitand, "mergeif": t_mergeif,
               "tempret": t_tempret, "ifexp": t_ifexp, "augexp": t_augexp}
 
 
